@@ -375,6 +375,19 @@ theorem parseLineComp_post (isFault : Bool) (model : String) (c : Cur) :
       extract_lets j1
       e_guard j1; rename_i g1
       exact EPost.pure (bor_bne_false g1)
+  · split
+    · exact EPost.error
+    · refine EPost.bind (EPost.triv _) (fun mn _ => ?_)
+      refine EPost.bind (EPost.triv _) (fun mx _ => ?_)
+      refine EPost.bind (EPost.triv _) (fun density _ => ?_)
+      refine EPost.bind (EPost.triv _) (fun comps _ => ?_)
+      refine EPost.bind (EPost.triv _) (fun maxWater _ => ?_)
+      refine EPost.bind (EPost.triv _) (fun cutoff _ => ?_)
+      refine EPost.bind (EPost.triv _) (fun op _ => ?_)
+      refine EPost.bind (EPost.triv _) (fun lith _ => ?_)
+      split
+      · exact EPost.error
+      · exact EPost.pure (by simp [LineComp.WellFormed])
   · exact EPost.error
 
 theorem parseLineGrains_post (isFault : Bool) (model : String) (c : Cur) :
@@ -391,6 +404,30 @@ theorem parseLineGrains_post (isFault : Bool) (model : String) (c : Cur) :
     e_guard j1; rename_i g1
     e_guard j2; rename_i g2
     exact EPost.pure ⟨(bne_false_eq g1).symm, (bne_false_eq g2).symm⟩
+  · refine EPost.bind (EPost.triv _) (fun mn _ => ?_)
+    refine EPost.bind (EPost.triv _) (fun mx _ => ?_)
+    refine EPost.bind (EPost.triv _) (fun comps _ => ?_)
+    refine EPost.bind (EPost.triv _) (fun _ _ => ?_)
+    refine EPost.bind (EPost.triv _) (fun sizes _ => ?_)
+    refine EPost.bind (EPost.triv _) (fun norm _ => ?_)
+    extract_lets j2 j1
+    e_guard j1; rename_i g1
+    e_guard j2; rename_i g2
+    exact EPost.pure ⟨(bne_false_eq g1).symm, (bne_false_eq g2).symm⟩
+  · refine EPost.bind (EPost.triv _) (fun mn _ => ?_)
+    refine EPost.bind (EPost.triv _) (fun mx _ => ?_)
+    refine EPost.bind (EPost.triv _) (fun comps _ => ?_)
+    refine EPost.bind (EPost.triv _) (fun basis _ => ?_)
+    refine EPost.bind (EPost.triv _) (fun _ _ => ?_)
+    refine EPost.bind (EPost.triv _) (fun sizes _ => ?_)
+    refine EPost.bind (EPost.triv _) (fun norm _ => ?_)
+    refine EPost.bind (EPost.triv _) (fun defl _ => ?_)
+    extract_lets j4 j3 j2 j1
+    e_guard j1; rename_i g1
+    e_guard j2; rename_i g2
+    e_guard j3; rename_i g3
+    e_guard j4; rename_i g4
+    exact EPost.pure ⟨(bne_false_eq g4).symm, (bne_false_eq g1).symm, (bne_false_eq g2).symm, (bne_false_eq g3).symm⟩
   · exact EPost.error
 
 
